@@ -118,7 +118,7 @@ def fail_key(c):
 def run(ctx):
     rng = ctx.rng
     q = ctx.quick()
-    n_base, n_wide, n_pair = (260, 360, 80) if q else (3000, 3000, 600)
+    n_base, n_wide, n_pair = (260, 360, 80) if q else (4000, 2500, 500)
     items = list(base_items(rng, n_base, 0.3)) + list(specgen_wide.wide_items(rng, n_wide)) + list(specgen_wide.wide_pairs(rng, n_pair))
     cases = []
     stats = {"generated": 0, "compiled": 0, "refused_in_known_class": {}, "flatten": 0, "occupancy": 0, "dyn_under_shape": 0,
